@@ -473,6 +473,15 @@ package leveldb
 //@   at before call (*DB).writeJournal#1
 //@     assert [C04,C10:every-accepted-sync-request-reaches-the-journal] gWantSync ==> arg2
 
+// Opening a DB: after the manifest has been read, the session continues from the manifest's last word - the next
+// file number (no number already handed out is handed out again), the journal number and the sequence number that
+// journal replay starts from.
+//@ func (*session).recover
+//@   props C04
+//@   mode bv
+//@   safety off
+//@   guarantees [C04:recovered-state-is-the-manifests-last-word] err == nil ==> (s.stNextFileNum == rec.nextFileNum && s.stJournalNum == rec.journalNum && s.stSeqNum == rec.seqNum)
+
 // Replaying a journal record: the i-th record of the group is entered under the group's sequence number plus i (the
 // numbers the writer gave them), the group is not older than what was already replayed, and exactly as many records
 // are entered as the header announces.
